@@ -222,9 +222,35 @@ func (r *rewriter) readsIn(e ast.Expr, out *[]ast.Stmt) {
 			if v := globalVarOf(r.info, x); v != nil && mutableGlobals[globalKey(v)] {
 				*out = append(*out, r.globalStmt(ast.NewIdent(x.Name), false))
 			}
+		case *ast.CallExpr:
+			// a method call on a package-level variable whose type is a library type that is
+			// documented as NOT safe for concurrent use mutates that variable's state
+			if se, ok := x.Fun.(*ast.SelectorExpr); ok {
+				if id, ok := se.X.(*ast.Ident); ok {
+					if v := globalVarOf(r.info, id); v != nil && unsafeLibType(v.Type()) {
+						*out = append(*out, r.globalStmt(ast.NewIdent(id.Name), true))
+					}
+				}
+			}
 		}
 		return true
 	})
+}
+
+// unsafeLibType: standard-library types whose methods must not be called concurrently.
+func unsafeLibType(t types.Type) bool {
+	if p, ok := t.(*types.Pointer); ok {
+		t = p.Elem()
+	}
+	n, ok := t.(*types.Named)
+	if !ok || n.Obj().Pkg() == nil {
+		return false
+	}
+	switch n.Obj().Pkg().Path() + "." + n.Obj().Name() {
+	case "math/rand.Rand", "bytes.Buffer", "strings.Builder", "bufio.Writer", "bufio.Reader", "bufio.Scanner", "container/list.List", "container/ring.Ring", "encoding/json.Encoder", "encoding/json.Decoder", "text/tabwriter.Writer", "hash/crc32.digest":
+		return true
+	}
+	return false
 }
 
 // globalStmt: quiet (non-scheduling) access to a package-level variable: vs.RQ(&X) / vs.WQ(&X)
@@ -480,6 +506,7 @@ const (
 	aMapSet
 	aMapDel
 	aMapLen
+	aRecover
 	aSkip
 )
 
@@ -558,6 +585,8 @@ func (r *rewriter) rewrite(f *ast.File) *ast.File {
 					if r.isChan(x.Args[0]) {
 						acts[x] = aCap
 					}
+				case "recover":
+					acts[x] = aRecover
 				}
 			}
 			if shimFuncs[r.pkgFunc(x)] != "" {
@@ -672,6 +701,11 @@ func (r *rewriter) rewrite(f *ast.File) *ast.File {
 				x.Args[0] = call(vsel("MapW"), x.Args[0])
 			case aCap:
 				c.Replace(method(x.Args[0], "Cap"))
+			case aRecover:
+				// the controlled runtime unwinds killed threads with a panic of its own: a recover()
+				// of the code under test must let that one pass
+				delete(acts, x)
+				c.Replace(call(vsel("Recover"), x))
 			case aShimFunc:
 				se := x.Fun.(*ast.SelectorExpr)
 				// the package identifier is still the original one here
